@@ -19,6 +19,20 @@ def _matches_on(fi: FunctionInfo, subject: str) -> list[ast.Match]:
     return [n for n in ast.walk(fi.node) if isinstance(n, ast.Match) and src(n.subject) == subject]
 
 
+def inner_subject(fi: FunctionInfo, outer_subject: str, field: str, cls_hint: str | None = None) -> str:
+    """Name under which an outer `match <outer_subject>` arm captures ``field`` (e.g. the operation of a node)."""
+    from ..astutil import pattern_captures
+
+    for mt in _matches_on(fi, outer_subject):
+        for case in mt.cases:
+            if cls_hint and cls_hint not in src(case.pattern):
+                continue
+            for name, access in pattern_captures(case.pattern).items():
+                if access == (field,):
+                    return name
+    return f"{outer_subject}.{field}"
+
+
 def _arm_certainly_matches(ctx: Ctx, fi: FunctionInfo, case: ast.match_case, c: ClassInfo, nested_ok: bool = True) -> bool:
     """Does the arm's *class test* accept objects of exact class c (ignoring nested sub-patterns)?"""
     if pattern_is_wildcard(case.pattern) or case.guard is not None:
@@ -112,7 +126,7 @@ def r08_1_totality(ctx: Ctx, rule: str = "R08.1", scope: str = "all") -> None:
                 f = m.func(relm, fn)
                 check_dispatch(ctx, rule, f, [p for p in f.params if p != "self"][0], classes)
         f = m.func(SQL_ENGINE, "Engine.convert_predicate")
-        check_dispatch(ctx, rule, f, "container", conts, label="sql/_engine.py:Engine.convert_predicate")
+        check_dispatch(ctx, rule, f, inner_subject(f, [p for p in f.params if p != "self"][0], "container", "ColumnInContainer"), conts, label="sql/_engine.py:Engine.convert_predicate")
         return
     _ = (
     )
@@ -146,7 +160,7 @@ def r08_1_totality(ctx: Ctx, rule: str = "R08.1", scope: str = "all") -> None:
         from .sqlplace import placements
 
         inner_classes = sorted({c.name for _f, c, _s, outs, _r in placements(ctx) for o in outs if o.kind == "INNER"})
-        inner_match = [n for n in ast.walk(f.node) if isinstance(n, ast.Match) and src(n.subject) == "operation"]
+        inner_match = [n for n in ast.walk(f.node) if isinstance(n, ast.Match) and src(n.subject) == inner_subject(f, r, "operation", "UnaryOperationRelation")]
         handled = {nm.split(".")[-1] for mt in inner_match for case in mt.cases for nm in pattern_class_names(case.pattern)}
         for nm in inner_classes:
             inst = f"sql/_engine.py:Engine.to_payload[operation]:{nm}"
@@ -164,7 +178,7 @@ def r08_1_totality(ctx: Ctx, rule: str = "R08.1", scope: str = "all") -> None:
             f = m.func(SQL_ENGINE, fn)
             check_dispatch(ctx, rule, f, [p for p in f.params if p != "self"][0], classes)
         f = m.func(SQL_ENGINE, "Engine.convert_predicate")
-        check_dispatch(ctx, rule, f, "container", conts, label="sql/_engine.py:Engine.convert_predicate")
+        check_dispatch(ctx, rule, f, inner_subject(f, [p for p in f.params if p != "self"][0], "container", "ColumnInContainer"), conts, label="sql/_engine.py:Engine.convert_predicate")
     if scope in ("all", "iteration"):
         f = m.func(IT_ENGINE, "Engine.execute")
         r = [p for p in f.params if p != "self"][0]
@@ -172,9 +186,9 @@ def r08_1_totality(ctx: Ctx, rule: str = "R08.1", scope: str = "all") -> None:
             ctx, rule, f, r, concrete_rel,
             covered_before={"LeafRelation": "payload is not None early return (leaves always carry a payload)"},
         )
-        check_dispatch(ctx, rule, f, "operation", k.node_unary_ops, label="iteration/_engine.py:Engine.execute(unary)")
+        check_dispatch(ctx, rule, f, inner_subject(f, r, "operation", "UnaryOperationRelation"), k.node_unary_ops, label="iteration/_engine.py:Engine.execute(unary)")
         check_dispatch(
-            ctx, rule, f, "operation", k.node_binary_ops, label="iteration/_engine.py:Engine.execute(binary)",
+            ctx, rule, f, inner_subject(f, r, "operation", "BinaryOperationRelation"), k.node_binary_ops, label="iteration/_engine.py:Engine.execute(binary)",
             documented_refusals={"Join": "EngineError: joins are not supported by the iteration engine (iteration.rst)"},
         )
         for fn, classes in (
